@@ -38,6 +38,52 @@ def pkg_inputs(rng, i):
     return pkg, files
 
 
+SHARED_BASE = ("CREATE TYPE status AS ENUM ('a', 'b');\n"
+               "CREATE TABLE authors (id int PRIMARY KEY, name text, bio text);\n"
+               "CREATE TABLE venues (id int PRIMARY KEY, city text NOT NULL, st status);\n")
+
+
+def pkg_inputs_shared(rng, i):
+    """package i lists the SAME base schema file as the other packages, plus (maybe) a migration file of its own
+    that renames / alters / drops what the base file declares: nothing of that may reach the other packages"""
+    venues, bio = "venues", "bio"
+    mig = []
+    for m in rng.sample(["rename-table", "rename-column", "add-column", "drop-column", "drop-not-null", "add-value", "comment", "drop-table", "alter-type"],
+                        rng.choice([0, 1, 1, 2, 3])):
+        if m == "rename-table" and venues == "venues":
+            mig.append("ALTER TABLE venues RENAME TO arenas;"); venues = "arenas"
+        elif m == "rename-column" and bio == "bio":
+            mig.append("ALTER TABLE authors RENAME COLUMN bio TO about;"); bio = "about"
+        elif m == "add-column":
+            mig.append("ALTER TABLE authors ADD COLUMN st status;")
+        elif m == "drop-column" and bio == "bio":
+            mig.append("ALTER TABLE authors DROP COLUMN bio;"); bio = None
+        elif m == "drop-not-null" and venues:
+            mig.append("ALTER TABLE %s ALTER COLUMN city DROP NOT NULL;" % venues)
+        elif m == "add-value":
+            mig.append("ALTER TYPE status ADD VALUE 'p%d';" % i)
+        elif m == "comment":
+            mig.append("COMMENT ON TABLE authors IS 'package %d';" % i)
+        elif m == "drop-table" and venues:
+            mig.append("DROP TABLE %s;" % venues); venues = None
+        elif m == "alter-type":
+            mig.append("ALTER TABLE authors ALTER COLUMN name TYPE bigint;")
+    q = "-- name: GetAuthor :one\nSELECT * FROM authors WHERE id = $1;\n"
+    if bio:
+        q += "\n-- name: Bios :many\nSELECT id, %s FROM authors WHERE %s = $1;\n" % (bio, bio)
+    if venues:
+        q += "\n-- name: Places :many\nSELECT * FROM %s WHERE city = $1;\n" % venues
+    schema_list = ["shared/base.sql"] + (["p%d/mig.sql" % i] if mig else [])
+    gen = {"go": {"package": "db", "out": "out/p%d" % i, "emit_interface": rng.random() < 0.3}}
+    if rng.random() < 0.25:
+        gen = {"kotlin": {"package": "com.example.p%d" % i, "out": "out/p%d" % i}}
+    pkg = {"engine": "postgresql", "schema": schema_list, "queries": "p%d/query.sql" % i, "gen": gen}
+    files = {"shared/base.sql": SHARED_BASE, "p%d/query.sql" % i: q}
+    if mig:
+        files["p%d/mig.sql" % i] = "\n".join(mig) + "\n"
+    return pkg, files
+
+
 def config(pkgs, glob):
     cfg = {"version": "2", "sql": pkgs}
     if glob:
@@ -67,7 +113,9 @@ def run(tier, seed):
     jobs, plan = [], []
     for ci in range(n):
         k = rng.randint(2, 4)
-        pk = [pkg_inputs(rng, i) for i in range(k)]
+        shared = rng.random() < 0.4
+        pk = [(pkg_inputs_shared if shared else pkg_inputs)(rng, i) for i in range(k)]
+        rep.count("shared-schema-file" if shared else "own-schema-files")
         files = {}
         for _, f in pk:
             files.update(f)
@@ -121,7 +169,8 @@ def run(tier, seed):
         cases = []
         for _ in range(w):
             k = rng.randint(1, 2)
-            pk = [pkg_inputs(rng, i) for i in range(k)]
+            shared = rng.random() < 0.4
+            pk = [(pkg_inputs_shared if shared else pkg_inputs)(rng, i) for i in range(k)]
             files = {}
             for _, f in pk:
                 files.update(f)
